@@ -17,6 +17,10 @@ HERE = Path(__file__).resolve().parent
 sys.path.insert(0, str(HERE))
 
 
+import warnings
+warnings.filterwarnings("ignore", message="Running in a secondary thread")
+
+
 def main() -> int:
     ap = argparse.ArgumentParser()
     ap.add_argument("prop")
